@@ -99,7 +99,7 @@ static bool run_ray(const RayCtx &cx, GridT &grid, const RayCase &rc, verif::Res
   // an absorption point is the optical depth error divided by the opacity
   const Q tol_abs = (M.absorbed && kmin < DBL_MAX) ? tol_tau / kmin : 0.L;
   const bool wrapped = M.wraps[0] || M.wraps[1] || M.wraps[2];
-  const std::string kk = std::string(wrapped ? ":periodic-wrap" : "") + cls;
+  const std::string kk = std::string(M.wrap_into_finer ? ":periodic-wrap-into-finer-cells" : (wrapped ? ":periodic-wrap" : "")) + cls;
   ++st.rays;
   if (wrapped)
     ++st.rays_wrap;
@@ -145,7 +145,7 @@ static bool run_ray(const RayCtx &cx, GridT &grid, const RayCase &rc, verif::Res
     if (kap[dp.first] > 0) // cells without gas do not accumulate (DensityGrid::update_integrals)
       expect[dp.first] += dp.second;
   Q sumreal = 0, taureal = 0, sumexp = 0;
-  bool good = true;
+  bool good = true, flag_ok = true;
   std::string why;
   if (verbose) {
     printf("ray %s\n reference: %d steps, total path %.17Lg, tau %.17Lg, absorbed %d in cell %ld, end (%.17Lg %.17Lg %.17Lg) wraps (%ld %ld %ld) tie %d\n", rep.c_str(),
@@ -155,12 +155,15 @@ static bool run_ray(const RayCtx &cx, GridT &grid, const RayCase &rc, verif::Res
   if (M.tie_at_wall) {
     ++st.ties;
   } else if (absorbed != M.absorbed) {
-    good = false;
+    flag_ok = false;
     why = fmt("interact reports %s, reference says %s (optical depth to the exit/total %.17Lg, target %.17g)", absorbed ? "absorbed" : "escaped", M.absorbed ? "absorbed" : "escaped", M.tau, rc.target);
-    R.violation(PFX + ":absorbed-flag" + kk, why + ": " + rep, rep);
+    const bool lastcell = M.absorbed && !absorbed && M.next_wall_is_box_face;
+    R.violation(PFX + (lastcell ? ":absorbed-flag:absorbed-in-the-last-cell-before-a-box-face-reported-as-escaped" : ":absorbed-flag:other") + kk,
+                why + (lastcell ? " [the photon stops inside a cell whose next wall along the ray is a non-periodic box face]: " : ": ") + rep, rep);
   }
   (absorbed ? st.rays_abs : st.rays_esc)++;
-  const bool compare_detail = !M.tie_at_wall && good;
+  // a wrong flag alone does not stop the comparison of deposits and position
+  const bool compare_detail = !M.tie_at_wall;
   for (size_t i = 0; i < N; ++i) {
     const double J = DensityGrid::iterator(realidx(i), grid).get_ionization_variables().get_mean_intensity(ION_H_n);
     sumreal += J;
@@ -223,7 +226,7 @@ static bool run_ray(const RayCtx &cx, GridT &grid, const RayCase &rc, verif::Res
         }
     }
   }
-  return good;
+  return good && flag_ok;
 }
 
 
